@@ -15,7 +15,7 @@ import (
 // C16 — page tree keeps page order, counts and effective attributes.
 
 func init() {
-	addRun("C16", "programs over nested pagetree.Writers: AppendPage/AppendPageDict bursts (1..4100 pages per burst, sizes around 16, 256, 4096), NewRange at arbitrary positions and depths, Close of sub-ranges, NextPageNumber callbacks, operations on closed writers, root Close (also repeated, also without pages); MediaBox/CropBox/Rotate/Resources (and AA for PDF 1.2) from small value sets with a dominant value or exact ties so that hoisting happens; plus range-size combinations around multiples of 16/256/4096. A case is non-trivial when it has at least two pages; distinct by its operation string.", runC16)
+	addRun("C16", "programs over nested pagetree.Writers: AppendPage/AppendPageDict bursts (1..4100 pages per burst, sizes around 16, 256, 4096), NewRange at arbitrary positions and depths, Close of sub-ranges, NextPageNumber callbacks, operations on closed writers, root Close (also repeated, also without pages); MediaBox/CropBox/Rotate/Resources (and AA for PDF 1.2) from small value sets with a dominant value or exact ties so that hoisting happens; plus range-size combinations around multiples of 16/256/4096; programs that hand ONE dictionary value to AppendPageDict for all pages of equal attributes (2..300 equal pages, alternating dictionaries over two ranges, a fifth of the random programs); NextPageNumber callbacks that register a follow-up callback on their writer when they report a page number (chains of 1..3; fixed corpus and a quarter of the random programs). A case is non-trivial when it has at least two pages; distinct by its operation string.", runC16)
 	addReplay("C16", "pagetree", replayC16)
 }
 
@@ -42,19 +42,29 @@ var trsResources = []pdf.Dict{
 // trsPOp is one operation of a program.  Attribute fields are indices into
 // the value sets, -1 = absent.
 type trsPOp struct {
-	kind    byte // 'a' AppendPageDict, 'A' AppendPage, 'r' NewRange, 'c' Close, 'n' NextPageNumber
+	kind    byte // 'a' AppendPageDict, 's' AppendPageDict with ONE dict value for all pages of equal attributes, 'A' AppendPage, 'r' NewRange, 'c' Close, 'n' NextPageNumber
 	h       int
 	id      int // page id / callback id
 	mb, cb  int
 	rot, aa int
 	res     int
+	chain   int // 'n' only: when the callback reports a page number it registers a follow-up callback on the same writer, `chain` times in a row
 }
+
+// trsChainStep separates the id of a follow-up callback from the id of the callback that
+// registered it.
+const trsChainStep = 100000
+
+func (o trsPOp) isPage() bool { return o.kind == 'a' || o.kind == 'A' || o.kind == 's' }
 
 func (o trsPOp) String() string {
 	switch o.kind {
-	case 'a', 'A':
+	case 'a', 'A', 's':
 		return fmt.Sprintf("%c%d:%d:%d:%d:%d:%d:%d", o.kind, o.h, o.id, o.mb, o.cb, o.rot, o.aa, o.res)
 	case 'n':
+		if o.chain > 0 {
+			return fmt.Sprintf("n%d:%d:%d", o.h, o.id, o.chain)
+		}
 		return fmt.Sprintf("n%d:%d", o.h, o.id)
 	}
 	return fmt.Sprintf("%c%d", o.kind, o.h)
@@ -74,10 +84,12 @@ func trsParsePOp(s string) (trsPOp, error) {
 		f = append(f, v)
 	}
 	switch {
-	case (o.kind == 'a' || o.kind == 'A') && len(f) == 7:
+	case o.isPage() && len(f) == 7:
 		o.h, o.id, o.mb, o.cb, o.rot, o.aa, o.res = f[0], f[1], f[2], f[3], f[4], f[5], f[6]
 	case o.kind == 'n' && len(f) == 2:
 		o.h, o.id = f[0], f[1]
+	case o.kind == 'n' && len(f) == 3 && f[2] >= 0 && f[2] <= 8:
+		o.h, o.id, o.chain = f[0], f[1], f[2]
 	case (o.kind == 'r' || o.kind == 'c') && len(f) == 1:
 		o.h = f[0]
 	default:
@@ -171,7 +183,9 @@ func (o trsPOp) given() (mb, cb, rot, aa, res pdf.Object) {
 // wire form of an op for the model
 func (o trsPOp) wire() string {
 	switch o.kind {
-	case 'a', 'A':
+	case 'n':
+		return fmt.Sprintf("n%d:%d", o.h, o.id)
+	case 'a', 'A', 's':
 		mb, cb, rot, aa, _ := o.given()
 		r := "_"
 		if rot != nil {
@@ -206,6 +220,16 @@ func (x *trsRange) closeAll(onCb func(k int)) {
 	}
 }
 
+// hasOpenSub: Close will have to close a sub-range first.
+func (x *trsRange) hasOpenSub() bool {
+	for _, it := range x.items {
+		if s, ok := it.(*trsRange); ok && !s.closed {
+			return true
+		}
+	}
+	return false
+}
+
 func (x *trsRange) flatten(out []int) []int {
 	for _, it := range x.items {
 		switch v := it.(type) {
@@ -221,7 +245,10 @@ func (x *trsRange) flatten(out []int) []int {
 // ---- running a program on the implementation ----
 
 type trsPTResult struct {
-	streamErrs int // operations that failed with "... while stream is open" (state changed all the same)
+	chainRegs  int      // follow-up callbacks registered from inside callbacks
+	noModel    bool     // some of them at a moment that is not between two operations
+	modelOps   []string // the program as the model is given it
+	streamErrs int      // operations that failed with "... while stream is open" (state changed all the same)
 	implLine string
 	fails    []trsFail
 	pages    int
@@ -275,6 +302,7 @@ type trsTreeWalk struct {
 	nodes  []trsNodeInfo
 	leaves []int
 	seen   map[pdf.Reference]bool
+	refID  map[pdf.Reference]int // pages that carry no id of their own (shared dictionaries)
 }
 
 func (tw *trsTreeWalk) fail(key, format string, a ...any) {
@@ -309,6 +337,9 @@ func (tw *trsTreeWalk) walk(ref pdf.Reference, parent pdf.Reference, depth int, 
 			id = int(x) - 1
 		case pdf.Real:
 			id = int(x) - 1
+		}
+		if v, ok := tw.refID[ref]; ok {
+			id = v
 		}
 		fmt.Fprintf(sb, "p%d%s%s", id, pmark, trsAttrStr(d))
 		tw.leaves = append(tw.leaves, id)
@@ -396,7 +427,7 @@ func trsCheckEffective(rd *pdf.Reader, o trsPOp, d pdf.Dict, via string, old boo
 	if int(gotRot) != wantRot {
 		fail("attr-rotate", "%s: page %d has effective Rotate %v, was given %d", via, o.id, d["Rotate"], wantRot)
 	}
-	if o.kind == 'a' {
+	if o.kind == 'a' || o.kind == 's' {
 		if o.res >= 0 {
 			if !pdf.Equal(d["Resources"], trsResources[o.res]) {
 				fail("attr-resources", "%s: page %d has effective Resources %v, was given %v", via, o.id, d["Resources"], trsResources[o.res])
@@ -452,6 +483,47 @@ func trsRunProgram(p *trsProgram) (res trsPTResult) {
 	var outcomes strings.Builder
 	var rootRef pdf.Reference
 	rootClosed := false
+	shared := map[[5]int]pdf.Dict{} // one dictionary value per attribute combination ('s' pages)
+	refID := map[pdf.Reference]int{}
+	hasShared := false
+	defer func() {
+		// pages that were handed over in one shared dictionary value: name the failure after it
+		if hasShared {
+			for i, f := range res.fails {
+				if f.key == "parent" || strings.HasPrefix(f.key, "attr-") {
+					res.fails[i].key = "shared-dict-" + f.key
+				}
+			}
+		}
+	}()
+	// callbacks that register a follow-up callback while they run
+	type chainReg struct {
+		k, h, opIdx int
+		inAppend    bool // registered while the page append on the same writer was firing its callbacks
+	}
+	var chainRegs []chainReg
+	curOp := -1
+	var register func(h, k, left int)
+	register = func(h, k, left int) {
+		hw, hs := handles[h], spec[h]
+		hw.NextPageNumber(func(n int) {
+			log = append(log, fmt.Sprintf("%d=%d", k, n))
+			got[k] = append(got[k], n)
+			if left > 0 && n >= 0 {
+				o := p.ops[curOp]
+				chainRegs = append(chainRegs, chainReg{k + trsChainStep, h, curOp, o.isPage() && o.h == h})
+				register(h, k+trsChainStep, left-1)
+			}
+		})
+		if hs.closed {
+			wantMinus[k] = true
+			if len(got[k]) != 1 {
+				fail("callback", "NextPageNumber on a closed writer did not call back at once (callback %d)", k)
+			}
+		} else {
+			hs.pend = append(hs.pend, k)
+		}
+	}
 	rootFlushFailed := false
 
 	// the content stream that is open during part of the program
@@ -508,8 +580,31 @@ func trsRunProgram(p *trsProgram) (res trsPTResult) {
 				panic("harness: bad handle in program")
 			}
 			hw, hs := handles[o.h], spec[o.h]
+			curOp = opIdx
+			// callbacks registered while this operation runs wait for the page after this one
+			var pendBefore []int
+			if o.isPage() {
+				pendBefore, hs.pend = hs.pend, nil
+			}
 			var err error
 			switch o.kind {
+			case 's':
+				key := [5]int{o.mb, o.cb, o.rot, o.aa, o.res}
+				d, ok := shared[key]
+				if !ok {
+					mb, cb, rot, aa, rs := o.given()
+					d = pdf.Dict{"Type": pdf.Name("Page")}
+					for k, val := range map[pdf.Name]pdf.Object{"MediaBox": mb, "CropBox": cb, "Rotate": rot, "AA": aa, "Resources": rs} {
+						if val != nil {
+							d[k] = val
+						}
+					}
+					shared[key] = d
+				}
+				ref := w.Alloc()
+				refID[ref] = o.id
+				hasShared = true
+				err = hw.AppendPageDict(ref, d)
 			case 'a':
 				mb, cb, rot, aa, rs := o.given()
 				d := pdf.Dict{"Type": pdf.Name("Page"), "Dur": pdf.Integer(o.id + 1)}
@@ -549,20 +644,9 @@ func trsRunProgram(p *trsProgram) (res trsPTResult) {
 				}
 				_ = ref
 			case 'n':
-				k := o.id
-				hw.NextPageNumber(func(n int) {
-					log = append(log, fmt.Sprintf("%d=%d", k, n))
-					got[k] = append(got[k], n)
-				})
-				if hs.closed {
-					wantMinus[k] = true
-					if len(got[k]) != 1 {
-						fail("callback", "NextPageNumber on a closed writer did not call back at once (callback %d)", k)
-					}
-				} else {
-					hs.pend = append(hs.pend, k)
-				}
+				register(o.h, o.id, o.chain)
 			}
+			pageDone := false
 			// outcome and specification
 			streamErr := err != nil && strings.Contains(err.Error(), "while stream is open")
 			if streamErr {
@@ -573,8 +657,12 @@ func trsRunProgram(p *trsProgram) (res trsPTResult) {
 				if streamW == nil {
 					fail("spurious-error", "operation %s: %v, but no stream is open", o, err)
 				}
-				if o.kind == 'c' && o.h == 0 {
+				if o.kind == 'c' && (o.h == 0 || hs.hasOpenSub()) {
+					// Close gave up half way (the root's last flush, or the Close of a
+					// sub-range it had to close first, was refused): the error went to the
+					// caller, the tree cannot be completed, the run ends here
 					rootFlushFailed = true
+					return
 				}
 			}
 			switch {
@@ -584,13 +672,13 @@ func trsRunProgram(p *trsProgram) (res trsPTResult) {
 					fail("closed-accepted", "operation %s on a closed writer succeeded", o)
 				}
 				switch o.kind {
-				case 'a', 'A':
+				case 'a', 'A', 's':
 					hs.items = append(hs.items, o.id)
 					pageOp[o.id] = o
-					for _, k := range hs.pend {
+					for _, k := range pendBefore {
 						wantPage[k] = o.id
 					}
-					hs.pend = nil
+					pageDone = true
 				case 'c':
 					hs.closeAll(func(k int) { wantMinus[k] = true })
 				}
@@ -609,8 +697,12 @@ func trsRunProgram(p *trsProgram) (res trsPTResult) {
 				outcomes.WriteByte('e')
 				fail("spurious-error", "operation %s: %v", o, err)
 			}
+			if o.isPage() && !pageDone {
+				hs.pend = append(pendBefore, hs.pend...)
+			}
 		}
 	}()
+	res.chainRegs = len(chainRegs)
 	if panicked == "" {
 		closeStream()
 	}
@@ -626,17 +718,13 @@ func trsRunProgram(p *trsProgram) (res trsPTResult) {
 	}
 
 	// page number callbacks
-	if spec[0].closed {
+	if spec[0].closed && !rootFlushFailed {
 		wantOrder := spec[0].flatten(nil)
 		pos := map[int]int{}
 		for i, id := range wantOrder {
 			pos[id] = i
 		}
-		for _, o := range p.ops {
-			if o.kind != 'n' {
-				continue
-			}
-			k := o.id
+		checkCb := func(key string, k, h int) {
 			want := -2
 			if wantMinus[k] {
 				want = -1
@@ -644,9 +732,43 @@ func trsRunProgram(p *trsProgram) (res trsPTResult) {
 				want = pos[id]
 			}
 			if len(got[k]) != 1 || got[k][0] != want {
-				fail("callback", "NextPageNumber callback %d (writer %d) was called with %v, want once with %d", k, o.h, got[k], want)
+				fail(key, "NextPageNumber callback %d (writer %d) was called with %v, want once with %d", k, h, got[k], want)
 			}
 		}
+		for _, o := range p.ops {
+			if o.kind == 'n' {
+				checkCb("callback", o.id, o.h)
+			}
+		}
+		for _, cr := range chainRegs {
+			checkCb("callback-reentrant", cr.k, cr.h)
+		}
+	}
+	// For the model, a registration made by a callback that ran inside the page append of its
+	// own writer is the same as a NextPageNumber call right after that append (the pending
+	// list is detached before the callbacks fire).  Registrations made by callbacks that fire
+	// later (when an earlier range is closed) have no place between two operations: such runs
+	// are judged by the oracle only.
+	after := map[int][]string{}
+	for _, cr := range chainRegs {
+		if !cr.inAppend {
+			res.noModel = true
+		}
+		after[cr.opIdx] = append(after[cr.opIdx], fmt.Sprintf("n%d:%d", cr.h, cr.k))
+	}
+	for i, o := range p.ops {
+		res.modelOps = append(res.modelOps, o.wire())
+		res.modelOps = append(res.modelOps, after[i]...)
+	}
+	if len(chainRegs) > 0 && !res.noModel && !rootFlushFailed && outcomes.Len() == len(p.ops) {
+		// the inserted registrations succeed
+		var sb strings.Builder
+		for i := range p.ops {
+			sb.WriteByte(outcomes.String()[i])
+			sb.WriteString(strings.Repeat("o", len(after[i])))
+		}
+		outcomes.Reset()
+		outcomes.WriteString(sb.String())
 	}
 
 	if rootFlushFailed {
@@ -688,7 +810,7 @@ func trsRunProgram(p *trsProgram) (res trsPTResult) {
 			fail("stream-other", "the stream that was open meanwhile holds %q, %v", body, err)
 		}
 	}
-	tw := &trsTreeWalk{rd: rd, seen: map[pdf.Reference]bool{}}
+	tw := &trsTreeWalk{rd: rd, seen: map[pdf.Reference]bool{}, refID: refID}
 	var sb strings.Builder
 	tw.walk(rd.GetMeta().Catalog.Pages, 0, 0, [4]string{"_", "_", "_", "_"}, &sb)
 	res.fails = append(res.fails, tw.fails...)
@@ -717,7 +839,10 @@ func trsRunProgram(p *trsProgram) (res trsPTResult) {
 		}
 	}
 	eqOrder("the /Kids structure", tw.leaves)
-	pageID := func(d pdf.Dict) int {
+	pageID := func(ref pdf.Reference, d pdf.Dict) int {
+		if v, ok := refID[ref]; ok {
+			return v
+		}
 		switch x := d["Dur"].(type) {
 		case pdf.Integer:
 			return int(x) - 1
@@ -728,8 +853,8 @@ func trsRunProgram(p *trsProgram) (res trsPTResult) {
 	}
 	var itIDs []int
 	it := pagetree.NewIterator(rd)
-	for _, d := range it.All() {
-		id := pageID(d)
+	for ref, d := range it.All() {
+		id := pageID(ref, d)
 		itIDs = append(itIDs, id)
 		if o, ok := pageOp[id]; ok {
 			trsCheckEffective(rd, o, d, "Iterator.All", p.old, fail)
@@ -752,12 +877,12 @@ func trsRunProgram(p *trsProgram) (res trsPTResult) {
 		step = len(wantOrder)/48 + 1
 	}
 	for i := 0; i < len(wantOrder); i += step {
-		_, d, err := pagetree.GetPage(rd, i)
+		ref, d, err := pagetree.GetPage(rd, i)
 		if err != nil {
 			fail("order", "GetPage(%d): %v", i, err)
 			continue
 		}
-		if id := pageID(d); id != wantOrder[i] {
+		if id := pageID(ref, d); id != wantOrder[i] {
 			fail("order", "GetPage(%d) is page %d, want page %d", i, id, wantOrder[i])
 		} else {
 			trsCheckEffective(rd, pageOp[id], d, "GetPage", p.old, fail)
@@ -881,6 +1006,31 @@ func trsGenProgram(r *Rand, target int, old bool) *trsProgram {
 	pRange := Pick(r, []int{0, 5, 15, 30})
 	pClose := Pick(r, []int{0, 5, 10})
 	pCb := Pick(r, []int{0, 5, 20})
+	// some programs hand one dictionary value to all AppendPageDict pages of equal attributes;
+	// some let callbacks register follow-up callbacks
+	rx := r.Fork()
+	pShared := 0
+	if rx.P(1, 5) {
+		pShared = Pick(rx, []int{100, 100, 50})
+	}
+	chainy := rx.P(1, 4)
+	if chainy && pCb == 0 {
+		pCb = 20
+	}
+	cbOp := func(h, id int) trsPOp {
+		o := trsPOp{kind: 'n', h: h, id: id}
+		if chainy && rx.P(2, 3) {
+			o.chain = 1 + rx.Intn(3)
+		}
+		return o
+	}
+	pageOp := func(h, id int) trsPOp {
+		o := ag.page(h, id)
+		if o.kind == 'a' && rx.Intn(100) < pShared {
+			o.kind = 's'
+		}
+		return o
+	}
 	pickHandle := func() int {
 		// mostly open handles, recent ones preferred
 		for try := 0; try < 4; try++ {
@@ -910,7 +1060,7 @@ func trsGenProgram(r *Rand, target int, old bool) *trsProgram {
 				closeRec(h)
 			}
 		case k < pRange+pClose+pCb:
-			p.ops = append(p.ops, trsPOp{kind: 'n', h: h, id: nextCb})
+			p.ops = append(p.ops, cbOp(h, nextCb))
 			nextCb++
 		default:
 			burst := Pick(r, trsBursts)
@@ -922,10 +1072,10 @@ func trsGenProgram(r *Rand, target int, old bool) *trsProgram {
 			}
 			for i := 0; i < burst; i++ {
 				if r.Intn(100) < pCb && r.P(1, 3) {
-					p.ops = append(p.ops, trsPOp{kind: 'n', h: h, id: nextCb})
+					p.ops = append(p.ops, cbOp(h, nextCb))
 					nextCb++
 				}
-				p.ops = append(p.ops, ag.page(h, nextID))
+				p.ops = append(p.ops, pageOp(h, nextID))
 				nextID++
 				if !closed[h] {
 					pages++
@@ -935,7 +1085,7 @@ func trsGenProgram(r *Rand, target int, old bool) *trsProgram {
 	}
 	// trailing callbacks, root close, operations after the end
 	if r.P(1, 3) {
-		p.ops = append(p.ops, trsPOp{kind: 'n', h: pickHandle(), id: nextCb})
+		p.ops = append(p.ops, cbOp(pickHandle(), nextCb))
 		nextCb++
 	}
 	p.ops = append(p.ops, trsPOp{kind: 'c', h: 0})
@@ -944,14 +1094,14 @@ func trsGenProgram(r *Rand, target int, old bool) *trsProgram {
 			h := r.Intn(nHandles)
 			switch r.Intn(4) {
 			case 0:
-				p.ops = append(p.ops, ag.page(h, nextID))
+				p.ops = append(p.ops, pageOp(h, nextID))
 				nextID++
 			case 1:
 				p.ops = append(p.ops, trsPOp{kind: 'r', h: h})
 			case 2:
 				p.ops = append(p.ops, trsPOp{kind: 'c', h: h})
 			default:
-				p.ops = append(p.ops, trsPOp{kind: 'n', h: h, id: nextCb})
+				p.ops = append(p.ops, cbOp(h, nextCb))
 				nextCb++
 			}
 		}
@@ -1019,6 +1169,8 @@ func runC16(c *Ctx) {
 		c.StatN("outcome_nopages", strings.Count(head, "n"))
 		for _, o := range p.ops {
 			switch o.kind {
+			case 's':
+				c.Stat("op_AppendPageDict_shared_dict")
 			case 'a':
 				c.Stat("op_AppendPageDict")
 			case 'A':
@@ -1040,9 +1192,17 @@ func runC16(c *Ctx) {
 		for _, f := range res.fails {
 			c.Violate("pagetree", f.key, f.desc, enc)
 		}
-		wire := make([]string, len(p.ops))
-		for i, o := range p.ops {
-			wire[i] = o.wire()
+		wire := res.modelOps
+		if wire == nil {
+			for _, o := range p.ops {
+				wire = append(wire, o.wire())
+			}
+		}
+		if res.chainRegs > 0 {
+			c.StatN("callbacks_registered_by_callbacks", res.chainRegs)
+			if res.noModel {
+				c.Stat("callback_registered_by_a_deferred_callback_oracle_only")
+			}
 		}
 		v := "0"
 		if p.old {
@@ -1058,7 +1218,7 @@ func runC16(c *Ctx) {
 		if p.streamTo > p.streamFrom {
 			c.Stat("with_open_content_stream")
 		}
-		if res.implLine != "" {
+		if res.implLine != "" && !res.noModel {
 			c.Emit("TRS pt "+v+" "+ops+" "+res.hints, res.implLine)
 		}
 		if res.pages > 0 && res.pages <= 5 {
@@ -1082,6 +1242,27 @@ func runC16(c *Ctx) {
 		emit(&trsProgram{ops: []trsPOp{{kind: 'r', h: 0}, pg(kind, 1, 0), {kind: 'c', h: 0}}}, "corpus")
 		emit(&trsProgram{ops: []trsPOp{{kind: 'r', h: 0}, {kind: 'r', h: 1}, pg(kind, 2, 0), {kind: 'c', h: 1}, {kind: 'c', h: 0}}}, "corpus")
 		emit(&trsProgram{ops: []trsPOp{{kind: 'n', h: 0, id: 0}, pg(kind, 0, 0), {kind: 'r', h: 0}, {kind: 'n', h: 1, id: 1}, {kind: 'n', h: 0, id: 2}, pg(kind, 0, 1), {kind: 'c', h: 0}}}, "corpus")
+	}
+	// one dictionary value handed over for many pages (AppendPageDict documents no transfer of
+	// ownership): 40 equal pages; two alternating dictionaries; inside ranges
+	for _, n := range []int{2, 17, 40, 300} {
+		var ops []trsPOp
+		for i := 0; i < n; i++ {
+			ops = append(ops, trsPOp{kind: 's', h: 0, id: i, mb: 0, cb: 1, rot: 1, aa: -1, res: 0})
+		}
+		emit(&trsProgram{ops: append(ops, trsPOp{kind: 'c', h: 0})}, "shared-dict")
+		ops = []trsPOp{{kind: 'r', h: 0}, {kind: 'r', h: 0}}
+		for i := 0; i < n; i++ {
+			ops = append(ops, trsPOp{kind: 's', h: 1 + i%2, id: i, mb: i % 3 % 2, cb: -1, rot: -1, aa: -1, res: -1})
+		}
+		emit(&trsProgram{ops: append(ops, trsPOp{kind: 'c', h: 0})}, "shared-dict")
+	}
+	// a callback that asks for the number of the page after its own (labelling every page):
+	// 0, 1, 2, then -1 at Close; the same inside a range behind an open range (numbers known late)
+	for _, kind := range []byte{'a', 'A'} {
+		emit(&trsProgram{ops: []trsPOp{{kind: 'n', h: 0, id: 0, chain: 3}, pg(kind, 0, 0), pg(kind, 0, 1), pg(kind, 0, 2), {kind: 'c', h: 0}}}, "callback-chain")
+		emit(&trsProgram{ops: []trsPOp{{kind: 'n', h: 0, id: 0, chain: 2}, {kind: 'n', h: 0, id: 1, chain: 1}, pg(kind, 0, 0), {kind: 'n', h: 0, id: 2}, pg(kind, 0, 1), pg(kind, 0, 2), pg(kind, 0, 3), {kind: 'c', h: 0}}}, "callback-chain")
+		emit(&trsProgram{ops: []trsPOp{{kind: 'r', h: 0}, {kind: 'r', h: 0}, {kind: 'n', h: 2, id: 0, chain: 2}, pg(kind, 2, 0), pg(kind, 1, 1), {kind: 'c', h: 1}, pg(kind, 2, 2), pg(kind, 2, 3), {kind: 'c', h: 0}}}, "callback-chain")
 	}
 	for _, n := range []int{1, 2, 15, 16, 17, 255, 256, 257, 271, 272, 4095, 4096, 4097, 5000} {
 		if n > 1000 && !c.Thorough && n != 4096 && n != 4097 {
